@@ -391,6 +391,10 @@ has_can_convert = ext_traits::is_detected<traits_can_convert_t, Json, T>;
         template<typename Alloc,typename TempAlloc>
         static result_type try_as(const allocator_set<Alloc,TempAlloc>&, const Json& j)
         {
+            if (!(j.is_bool() || j.is_int64() || j.is_uint64())) // as_bool() throws for anything else
+            {
+                return result_type{jsoncons::unexpect, conv_errc::not_bool};
+            }
             return result_type{j.as_bool()};
         }
 
